@@ -121,7 +121,8 @@ def billing_calendar(case):
     lens = list(lens)
     for pos, length in case.get("dev", []):
         lens[pos] = length
-    first = iv.add_days(first, case.get("phase", 0))
+    if case.get("first"):
+        first = dt.date.fromisoformat(case["first"])
     dates = [first]
     for n in lens:
         dates.append(iv.add_days(dates[-1], n))
@@ -186,7 +187,7 @@ def span_tag(period, zone):
 def run_billing(case):
     zone = case["zone"]
     inputs, dates, amounts, regime = billing_inputs(case)
-    key0 = {"space": "billing", "cls": case.get("cls", "baseline"), "entry": case["entry"], "feed": case["feed"]}
+    key0 = {"space": "billing", "cls": case.get("cls", "baseline"), "entry": case["entry"]}
     periods = iv.billing_periods(dates, amounts, zone, regime)
     dev_pos = {p for p, _ in case.get("dev", [])}
     try:
@@ -223,9 +224,9 @@ def run_billing(case):
         total = float(np.nansum(got))
         all_nan = n_nan == len(got)
         conserved = n_nan == 0 and close(total, p["amount"])
-        where = ("last" if p["i"] == len(periods) - 1 else "first" if p["i"] == 0 else "mid")
+        where = "last" if p["i"] == len(periods) - 1 else "next_to_last" if p["i"] == len(periods) - 2 else "earlier"
         kind = {"len": p["ndays"] if p["i"] in dev_pos else "base", "span": span_tag(p, zone), "pos": where}
-        desc = (f"period {p['i']} [{p['start_date']} .. {p['end_date']}) {p['ndays']} days ({p['minutes'] / 1440:.4f} x 24 h), "
+        desc = (f"{case['cal']} dev={case.get('dev', [])} {zone} feed={case['feed']}: period {p['i']} [{p['start_date']} .. {p['end_date']}) {p['ndays']} days ({p['minutes'] / 1440:.4f} x 24 h), "
                 f"billed {float(p['amount'])}: {len(got) - n_nan} days carry usage summing to {total!r}, {n_nan} days NaN")
         if p["validity"] == "valid":
             beh.append("kept" if conserved else "BAD")
